@@ -102,6 +102,8 @@ def shard(args) -> Acc:
         return clip_shard(args[1:])
     if args[0] == "3phase":
         return three_phase_shard(args[1:])
+    if args[0] == "meter":
+        return meter_shard(args[1:])
     tier, n, lo, hi = args
     acc = Acc()
     progs = programs(tier, n)[lo:hi]
@@ -287,6 +289,84 @@ def three_phase_shard(args) -> Acc:
     return acc
 
 
+# -- string formulas started through LogicalMeter.start_formula with either nones_are_zeros setting -----------------
+
+METER_FORMULAS = ["#1 + #2", "#1 * (#2 - #1)", "#1 / #2"]
+
+
+def meter_plans(tier):
+    items = [(f, m, nz) for f in (METER_FORMULAS[:2] if tier == "quick" else METER_FORMULAS) for m in (0, 1) for nz in (False, True)]
+    return [list(p) for p in itertools.product(items, repeat=2)]
+
+
+def meter_inputs(tier):
+    base = {1: 3.0, 2: -7.0}
+    out = [dict(base), {1: -1.0, 2: 2.0}]
+    for enc in (MISSING[:2] if tier == "quick" else MISSING):
+        for subset in ((1,), (2,), (1, 2)):
+            v = dict(base)
+            for c in subset:
+                v[c] = enc
+            out.append(v)
+    out.append({1: 3.0, 2: 0.0})
+    out.append(dict(base))
+    return out
+
+
+def meter_reference(entry, vals):
+    f, m, nz = entry
+    x = {}
+    for cid, v in vals.items():
+        if F.is_missing(v):
+            if not nz:
+                return None
+            x[cid] = 0.0
+        else:
+            x[cid] = F.meter_value(m, v)
+    return F.ref_string(f, x)
+
+
+def check_meter(plan, tier):
+    plan = [tuple(x) for x in plan]
+    inputs = meter_inputs(tier)
+    outs, _ = F.run_meter(plan, inputs, compose=False)
+    viol = []
+    for i, entry in enumerate(plan):
+        got = dict(outs[f"s{i}"])
+        for k, vals in enumerate(inputs):
+            exp = meter_reference(entry, vals)
+            d = {"engine": i, "timestamp": k, "inputs": jsonv({str(a): b for a, b in vals.items()}), "expected": exp}
+            if k not in got:
+                viol.append(("exactly_one_sample_per_timestamp", d))
+            elif (got[k] is None) != (exp is None):
+                viol.append(("none_exactly_when_input_missing_or_result_undefined", dict(d, got=got[k])))
+            elif not F.close(got[k], exp):
+                viol.append(("missing_configured_as_zero_behaves_like_zero_else_value", dict(d, got=got[k])))
+            if len(viol) >= 3:
+                return viol, len(inputs) * len(plan)
+    return viol, len(inputs) * len(plan)
+
+
+def meter_shard(args) -> Acc:
+    tier, lo, hi = args
+    acc = Acc()
+    for plan in meter_plans(tier)[lo:hi]:
+        viol, n = check_meter(plan, tier)
+        acc.traces += 1
+        acc.evaluations += n
+        acc.transitions += n
+        acc.nontrivial += 1
+        acc.counters["programs"] += len(plan)
+        acc.counters["logical_meter_plans"] += 1
+        for c in CLAUSES:
+            acc.clauses[c] += 1
+        acc.outcome(f"meter same_formula_and_metric={plan[0][:2] == plan[1][:2]} nz={plan[0][2]},{plan[1][2]}")
+        for clause, detail in viol:
+            acc.violation(Violation(clause, {"driver": "meter", "plan": plan, "tier": tier}, detail))
+    acc.states = acc.traces
+    return acc
+
+
 def _classes(t, detail):
     return ()
 
@@ -316,6 +396,8 @@ def run(tier: str, seed: int, workers: int):
             shards.append((tier, n, lo, lo + step))
     shards.append(("clip", tier))
     shards.append(("3phase", tier))
+    for lo in range(0, len(meter_plans(tier)), 16):
+        shards.append(("meter", tier, lo, lo + 16))
     if seed:
         import random
 
@@ -329,6 +411,8 @@ def run(tier: str, seed: int, workers: int):
         "assumptions": [
             "3-phase compositions: every one-operator tree over two FormulaEngine3Phase leaves, each (leaf, phase) missing in turn, built "
             "with and without nones_are_zeros",
+            "string formulas: every ordered pair of (formula string, metric, nones_are_zeros) from 2 (quick) / 3 strings x 2 metrics x 2 settings "
+            "started on one LogicalMeter (engine pool), each engine compared with the setting it was asked for",
             "clipper steps are only reachable through FormulaBuilder.push_clipper: four forms x three bound pairs x nones_are_zeros per stream",
             "lock-step delivery of inputs",
             "'configured to treat missing values as zero' = nones_are_zeros on from_receiver for that stream, or on the build() that "
@@ -345,6 +429,9 @@ def _tuplify(t):
 
 
 def replay(case: dict):
+    if case.get("driver") == "meter":
+        v, _ = check_meter(case["plan"], case["tier"])
+        return v
     if case.get("driver") == "three-phase":
         a = three_phase_shard((case["tier"],))
         return [(v.clause, v.detail) for v in a.violations.values() if v.case["shown"] == case["shown"] and v.case["nz_build"] == case["nz_build"]]
